@@ -1,8 +1,41 @@
-//! Miri slice of C01 (thorough tier): a few dozen seeds of the no-alloc build under
-//! `cargo +nightly miri run`, for undefined behaviour that would not show as a panic.
+//! Miri slice of C01 (thorough tier): `./check` runs a few slices of the same seeded runs
+//! with the whole simulator under `cargo +nightly miri run` (all three builds, the no-alloc
+//! one with the crate's single `unsafe` block among them) and leaves a summary in
+//! $AISSIM_WORK/miri.json; this module folds it into the evidence and reports undefined
+//! behaviour as a violation.
 
+use crate::json::{self, J};
 use crate::runner::{Args, EvidenceExtra};
 
-pub fn c01_miri(_args: &Args) -> (EvidenceExtra, Vec<(String, String)>) {
-    (EvidenceExtra { items: vec![] }, vec![])
+pub fn c01_miri(args: &Args) -> (EvidenceExtra, Vec<(String, String)>) {
+    let work = std::env::var("AISSIM_WORK").unwrap_or_else(|_| "/verif/target/work".into());
+    let path = format!("{}/miri.json", work);
+    let mut violations = Vec::new();
+    let item = match std::fs::read_to_string(&path).ok().and_then(|s| json::parse(&s).ok()) {
+        Some(j) => {
+            let ub = j.get("undefined_behaviour_reports").and_then(|v| v.as_i64()).unwrap_or(0);
+            if ub > 0 {
+                let seed = j.get("seed").and_then(|v| v.as_str()).unwrap_or("?").to_string();
+                violations.push((
+                    format!("{}/replays/C01-miri-seed{}-slice*.log", crate::runner::verif_dir(), seed),
+                    format!("clause=undefined-behaviour Miri reported undefined behaviour in {} slice(s); re-run: VERIF_SEED={} ./check C01 --tier thorough", ub, seed),
+                ));
+            }
+            j
+        }
+        None => J::obj().set("ran", J::Bool(false)).set(
+            "reason",
+            J::Str(if args.tier == "thorough" {
+                "no Miri summary found".into()
+            } else {
+                "Miri slice runs in the thorough tier only".into()
+            }),
+        ),
+    };
+    (
+        EvidenceExtra {
+            items: vec![("miri_slice".into(), item)],
+        },
+        violations,
+    )
 }
